@@ -297,7 +297,34 @@ def main(argv=None):
         else:
             print("note: known finding %s no longer reproduces (stored schedule, lenient schedule and a seeded schedule search all came back clean)" % k["id"], flush=True)
 
+    # directed regression: the minimised reproducer of every repaired defect is run again (same
+    # case, stored schedule applied leniently, then a few seeded schedules); a `fixed:` entry
+    # suppresses nothing, so if the defect is back it is reported like any other violation
+    regressions = []
+    fixed_dir = os.path.join(VERIF, "replays", "fixed")
+    n_fixed = 0
+    if os.path.isdir(fixed_dir):
+        for fn in sorted(os.listdir(fixed_dir)):
+            if not fn.startswith(prop + "-") or not fn.endswith(".json"):
+                continue
+            n_fixed += 1
+            doc = json.load(open(os.path.join(fixed_dir, fn)))
+            sig = doc["violation"]["sig"]
+            res = harness.run_replay(check, doc, lenient=True)
+            hit = None if res["harness_error"] else harness.same_violation(res, sig)
+            seed_used = doc["seed"]
+            if hit is None:
+                found = harness.find_schedule(check, doc["case"], sig, doc["seed"], 80, time.time() + 15)
+                if found is not None:
+                    res, hit, seed_used = found
+            if hit is not None:
+                regressions.append({"idx": -1, "seed": seed_used, "case": doc["case"], "violation": hit,
+                                    "policy": res["policy"], "schedule": res["schedule"], "digest": res["digest"]})
+                print("note: the repaired defect of %s is back (signature %s)" % (fn, sig), flush=True)
+
     agg, unexplained, known_seen, known, wall = batch(check, a.tier, verif_seed, a.budget, a.procs, a.runs)
+    known_sigs_now = {k["sig"] for k in known}
+    unexplained = [r for r in regressions if r["violation"]["sig"] not in known_sigs_now] + unexplained
 
     if agg["harness_errors"]:
         print("HARNESS-ERROR in %d runs; first: idx=%s\n%s" % (len(agg["harness_errors"]), agg["harness_errors"][0]["idx"], agg["harness_errors"][0]["error"]))
@@ -354,6 +381,8 @@ def main(argv=None):
             "search_wall_s": round(wall, 2),
             "harness_errors": len(agg["harness_errors"]),
             "replays_written": reported,
+            "fixed_defect_reproducers_rerun": n_fixed,
+            "fixed_defects_back": len(regressions),
         }
         path = write_evidence(check, a.tier, verif_seed, agg, wall_total, len(reported), extra)
     if reported:
